@@ -200,8 +200,13 @@ func (enc Encryptor) EncryptZero(ct interface{}) (err error) {
 	case *SecretKey:
 		return enc.encryptZeroSk(key, ct)
 	case *PublicKey:
-		if cti, isCt := ct.(*Ciphertext); isCt && enc.params.PCount() == 0 {
-			return enc.encryptZeroPkNoP(key, cti.Element)
+		if cti, isCt := ct.(*Ciphertext); isCt {
+			if cti.Degree() < 1 {
+				return fmt.Errorf("cannot encrypt: a public-key encryption has degree 1, the receiver has degree %d", cti.Degree())
+			}
+			if enc.params.PCount() == 0 {
+				return enc.encryptZeroPkNoP(key, cti.Element)
+			}
 		}
 		return enc.encryptZeroPk(key, ct)
 	default:
